@@ -63,42 +63,167 @@ EXTRA_RULES = [
      'element in order) and of Iterator::filter (calls the predicate once per element, in order, yields those for which it is '
      'true). In the closure `x` is a `&T` and in the loop a `T`; the only use of `x` in P is the method call `x.clone()`, which '
      'auto-derefs to the same `T::clone` (the rule refuses any other P)', re.S),
+    ('cloned-collect-set', r'(\w+)\.iter\(\)\.cloned\(\)\.collect\(\)', r'vx_cloned_set(\1)',
+     'V.iter().cloned().collect() into a HashSet<Value> (V: Vec<Value>) -> vx_cloned_set(V): std doc of Iterator::cloned + FromIterator '
+     'for HashSet: the set of (clones of) the elements of V'),
     ('to-owned-clone', r'\b(k)\.to_owned\(\)', r'\1.clone()',
      'K.to_owned() (K: &String) -> K.clone(): std blanket `impl<T: Clone> ToOwned for T { fn to_owned(&self) -> T { self.clone() } }`'),
     ('drop-log', r'log::(?:info|error)!\("[^"]*"\);', 'vx_log();',
      'log::info!("literal"); / log::error!("literal"); -> vx_log(); (logging a constant message reads nothing of the verified state)'),
 ]
 
+FLATTEN_OBJECT = {
+    'src': {'file': FLAT, 'kind': 'fn', 'name': 'flatten_object'},
+    'rules': ['fmt-join-dot', 'to-owned-clone'],
+    'attrs': '#[verifier::loop_isolation(false)]\n#[verifier::spinoff_prover]',
+    'decreases': 'jv(*val)',
+    'ensures': '''
+            // exactly the settings that `val` denotes under `prefix` are added (a flat key and its nested spelling denote the same
+            // setting: spec fn den), everything else in `config` is kept, every stored value is a leaf
+            flatten_post(old(config)@, final(config)@, prefix.pfx(), jv(*val)) /*@C32.flat-equals-nested*/''',
+    'body_first': 'let ghost c0 = config@;',
+    'iter_names': {0: 'it'},
+    'loops': {0: '''invariant
+                    lists_entries(keys_of(it.seq()), vals_of(it.seq()), map@),
+                    jv(*val) == JV::Object(map@),
+                    flatten_inv(c0, config@, prefix.pfx(), map@, keys_of(it.seq()), it.index@) /*@C32.flat-equals-nested.inv*/,
+                    it.index@ == it.seq().len() ==> flatten_post(c0, config@, prefix.pfx(), JV::Object(map@)) /*@C32.flat-equals-nested.inv*/,'''},
+    'proof': [
+        (r'for \(k, v\) in map\.iter\(\) \{', 'before', 'proof { lemma_flatten_empty(c0, prefix.pfx(), map@); }'),
+        (r'let new_key = ', 'before', '''let ghost c1 = config@; let ghost n0 = it.index@;
+                proof {
+                    assert((k, v) == it.seq()[n0]);
+                    assert(keys_of(it.seq())[n0] == k@ && vals_of(it.seq())[n0] == jv(*v));
+                    assert(map@.contains_key(k@) && map@[k@] == jv(*v));
+                    lemma_child_smaller(jv(*val), k@);
+                }'''),
+        (r'flatten_object\((?:Some\()?&new_key\)?, v, config\);', 'after', 'proof { lemma_flatten_q(c0, c1, config@, prefix.pfx(), map@, n0, k@); }'),
+        (r'config\.insert\(', 'before', 'proof { reveal_strlit(""); assert(!(*val is Object)); assert(!(jv(*val) is Object)); }'),
+        (r'config\.insert\([^;]*\);', 'after', '''proof {
+                let v = jv(*val); let pre = prefix.pfx();
+                reveal_strlit("");
+                assert(""@ =~= Seq::<char>::empty());
+                assert(ptext(pre) =~= prefix.text());
+                assert(config@.dom() =~= c0.dom().insert(prefix.text()));
+                assert(config@ == c0.insert(ptext(pre), v));
+                assert forall|p: Seq<char>, leaf: JV| den(pre, v, p, leaf) == (p == ptext(pre) && leaf == v) by {}
+            }'''),
+    ],
+}
+
+MERGE_VALUES = {
+    'src': {'file': LOADER, 'kind': 'fn', 'name': 'merge_values'},
+    'rules': ['for-map-into-iter', ('cloned-collect-set', {'optional': True}), 'extend-filter-loop'],
+    'attrs': '#[verifier::loop_isolation(false)]\n#[verifier::spinoff_prover]',
+    'decreases': 'jv(overlay)',
+    'ensures': '''
+            // two objects: member by member (recursively); two arrays: the later one's new elements appended; anything else: the later value
+            (jv(*old(base)) is Object && jv(overlay) is Object) ==> jv(*final(base)) == merge(jv(*old(base)), jv(overlay)) /*@C32.merge.objects-memberwise*/,
+            (jv(*old(base)) is Array && jv(overlay) is Array) ==>
+                jv(*final(base)) == JV::Array(append_new(jv(*old(base))->Array_0, jv(overlay)->Array_0)) /*@C32.arrays-append-without-duplicates*/,
+            !(jv(*old(base)) is Object && jv(overlay) is Object) && !(jv(*old(base)) is Array && jv(overlay) is Array) ==>
+                jv(*final(base)) == jv(overlay) /*@C32.merge.later-value-wins*/''',
+    'body_first': 'let ghost b0 = jv(*base); let ghost o0 = jv(overlay);',
+    'iter_names': {0: 'it', 1: 'it2'},
+    'loops': {
+        0: '''invariant
+                    lists_entries(okeys_of(it.seq()), ovals_of(it.seq()), om),
+                    base_map@ == merged_upto(bm0, om, okeys_of(it.seq()), it.index@) /*@C32.merge.objects-memberwise.inv*/,
+                    it.index@ == it.seq().len() ==> JV::Object(base_map@) == merge(JV::Object(bm0), JV::Object(om)) /*@C32.merge.objects-memberwise.inv*/,''',
+        1: '''invariant
+                    it2.seq() == oa,
+                    seen@ == jvs(base_array@).to_set() /*@C32.arrays-append-without-duplicates.inv*/,
+                    append_new(jvs(base_array@), jvs(oa).skip(it2.index@)) == append_new(ba0, jvs(oa)) /*@C32.arrays-append-without-duplicates.inv*/,
+                    it2.index@ == it2.seq().len() ==> jvs(base_array@) == append_new(ba0, jvs(oa)) /*@C32.arrays-append-without-duplicates.inv*/,''',
+    },
+    'proof': [
+        (r'for \(key, overlay_value\) in overlay_map\.into_iter\(\) \{', 'before',
+         'let ghost om = overlay_map@; let ghost bm0 = base_map@; proof { lemma_merge_init(bm0, om); }'),
+        (r'match base_map\.get_mut\(&key\) \{', 'before', '''let ghost n0 = it.index@; let ghost cur = base_map@; let ghost kk = key@; let ghost ov = jv(overlay_value);
+                proof {
+                    assert((key, overlay_value) == it.seq()[n0]);
+                    assert(okeys_of(it.seq())[n0] == kk && ovals_of(it.seq())[n0] == ov);
+                    assert(om.contains_key(kk) && om[kk] == ov);
+                    lemma_child_smaller(o0, kk);
+                    lemma_merge_step_q(bm0, om, n0, kk, cur);
+                }'''),
+        (r'merge_values\(base_value, overlay_value\);', 'after', 'proof { lemma_merge_cases(bm0[kk], ov, jv(*base_value)); }'),
+        (r'let mut seen', 'before', '''let ghost oa = overlay_array@; let ghost ba0 = jvs(base_array@);
+            proof { lemma_jv_array(*base_array); lemma_jv_array(overlay_array); assert(b0 == JV::Array(ba0)); assert(o0 == JV::Array(jvs(oa)));
+                assert(jvs(oa).skip(0) =~= jvs(oa)); if oa.len() == 0 { assert(jvs(oa) =~= Seq::<JV>::empty()); } }'''),
+        (r'if seen\.insert\(item\.clone\(\)\) \{', 'before', '''let ghost idx = it2.index@; let ghost x = jv(item); let ghost cur = jvs(base_array@);
+                proof { assert(item == oa[idx]); assert(jvs(oa)[idx] == x); lemma_append_step(cur, jvs(oa), idx); cur.to_set_ensures(); }'''),
+        (r'base_array\.push\(item\);\s*\}', 'after', '''proof {
+                    let now = jvs(base_array@);
+                    if cur.contains(x) { assert(now =~= cur); assert(seen@ =~= cur.to_set()); }
+                    else { assert(now =~= cur.push(x)); lemma_push_to_set(cur, x); }
+                    if idx + 1 == oa.len() { assert(jvs(oa).skip(idx + 1) =~= Seq::<JV>::empty()); }
+                }'''),
+        (r'base_array\.push\(item\);\s*\}\s*\}', 'after', 'proof { lemma_jv_array(*base_array); }'),
+    ],
+}
+
+TO_EMMYRC_JSON = {
+    'src': {'file': FLAT, 'kind': 'fn', 'name': 'to_emmyrc_json'},
+    'rules': ['split-dot-collect', 'hashmap-ref-iter'],
+    'attrs': '#[verifier::loop_isolation(false)]\n#[verifier::spinoff_prover]',
+    'ret': 'r',
+    'ensures': '''
+            // (no `requires`: the two `expect("always an object")` are unreachable for EVERY map, incl. keys that are both a value and a
+            // prefix, empty keys, keys of only dots)
+            r is Object /*@C31.flatten.result-is-object*/,
+            // the result is the nested form of the flat map: a function of the map alone (lemma_tree_unique), whatever order the
+            // hash map yields its entries in
+            flat_wf(config.config@) ==> tree_ok(jv(r), config.config@, Seq::empty()) /*@C32.flatten.order-independent*/''',
+    'iter_names': {0: 'it'},
+    'loops': {
+        0: '''invariant
+                lists_entries(keys_of(it.seq()), vals_of(it.seq()), config.config@),
+                emmyrc is Object /*@C31.flatten.no-panic.outer*/,
+                flat_wf(config.config@) ==> tree_ok(jv(emmyrc), done_part(config.config@, keys_of(it.seq()), it.index@), Seq::empty()) /*@C32.flatten.order-independent.inv*/,
+                flat_wf(config.config@) && it.index@ == it.seq().len() ==> tree_ok(jv(emmyrc), config.config@, Seq::empty()),''',
+        1: '''invariant
+                    *current is Object /*@C31.flatten.no-panic*/,
+                    (*final(current) is Object && jv(*final(current)) == ins(jv(*current), strs(keys@).skip(i as int), jv(*v)))
+                        ==> (e_fin is Object && jv(e_fin) == ins(t0, strs(keys@), jv(*v))) /*@C32.flatten.cursor.inv*/,''',
+    },
+    'proof': [
+        (r'for \(k, v\) in config\.config\.iter\(\) \{', 'before', 'proof { lemma_outer_init(config.config@); }'),
+        (r'let mut current = &mut emmyrc;', 'before', 'let ghost t0 = jv(emmyrc); let ghost n0 = it.index@;'),
+        (r'let mut current = &mut emmyrc;', 'after', '''let ghost e_fin = *final(current);
+        proof { assert(strs(keys@).skip(0) =~= strs(keys@)); }'''),
+        (r'let key = keys\[i\];', 'after', '''let ghost cur0 = jv(*current); let ghost rest = strs(keys@).skip(i as int);
+            proof { assert(rest[0] == key@); assert(rest.drop_first() =~= strs(keys@).skip(i + 1)); assert(rest.len() == keys@.len() - i); }'''),
+        (r'current = slot;\s*\}\s*\}', 'after', '''proof {
+            assert(emmyrc == e_fin);
+            lemma_split_unique(strs(keys@), k@);
+            lemma_outer_step_q(config.config@, n0, t0, k@, jv(*v));
+        }'''),
+    ],
+}
+
 UNIT = {
     'extra_rules': EXTRA_RULES,
     'items': {
         'FlattenConfigObject': {'src': {'file': FLAT, 'kind': 'struct', 'name': 'FlattenConfigObject'},
                                 'rules': [('struct-fields', {})]},
-        'FlattenConfigObject::parse': {'src': {'file': FLAT, 'kind': 'fn', 'impl': 'FlattenConfigObject', 'name': 'parse'}},
-        'FlattenConfigObject::to_emmyrc': {'src': {'file': FLAT, 'kind': 'fn', 'impl': 'FlattenConfigObject', 'name': 'to_emmyrc'}},
-        'flatten_object': {'src': {'file': FLAT, 'kind': 'fn', 'name': 'flatten_object'},
-                           'rules': ['fmt-join-dot', 'to-owned-clone'],
-                           'decreases': 'jv(*val)',
-                           'iter_names': {0: 'it'},
-                           'loops': {0: '''invariant
-                    lists_entries(it.seq().map_values(|e: (&String, &Value)| e.0@), it.seq().map_values(|e: (&String, &Value)| jv(*e.1)), map@),
-                    jv(*val) == JV::Object(map@),'''},
-                           },
-        'to_emmyrc_json': {'src': {'file': FLAT, 'kind': 'fn', 'name': 'to_emmyrc_json'},
-                           'rules': ['split-dot-collect', 'hashmap-ref-iter'],
-                           'ret': 'r',
-                           'ensures': 'r is Object',
-                           'iter_names': {0: 'it'},
-                           'loops': {0: '''invariant emmyrc is Object,''',
-                                     1: '''invariant *current is Object /*@C31.flatten.no-panic*/,
-                        (*final(current) is Object) ==> (e_fin is Object),'''},
-                           'proof': [(r'let mut current = &mut emmyrc;', 'after', 'let ghost e_fin = *final(current);'),
-                                     (r'current = slot;\s*\}\s*\}', 'after', 'proof { assert(emmyrc == e_fin); }')],
-                           },
-        'merge_values': {'src': {'file': LOADER, 'kind': 'fn', 'name': 'merge_values'},
-                         'rules': ['for-map-into-iter', 'extend-filter-loop'],
-                         'decreases': 'jv(overlay)',
-                         },
+        'FlattenConfigObject::parse': {
+            'src': {'file': FLAT, 'kind': 'fn', 'impl': 'FlattenConfigObject', 'name': 'parse'},
+            'ret': 'r',
+            'ensures': '''
+            // the flat map holds exactly the settings the file denotes (for an unambiguous file this determines it: lemma_settings_unique)
+            settings_of(r.config@, None, jv(luals_json)) /*@C32.parse.settings-of-the-file*/,
+            flat_wf(r.config@) /*@C32.parse.values-are-leaves*/''',
+            'proof': [(r'flatten_object\(', 'before', 'proof { reveal_strlit(""); }')]},
+        'FlattenConfigObject::to_emmyrc': {
+            'src': {'file': FLAT, 'kind': 'fn', 'impl': 'FlattenConfigObject', 'name': 'to_emmyrc'},
+            'ret': 'r',
+            'ensures': '''
+            r is Object /*@C31.flatten.result-is-object*/,
+            flat_wf(self.config@) ==> tree_ok(jv(r), self.config@, Seq::empty()) /*@C32.flatten.order-independent*/'''},
+        'flatten_object': FLATTEN_OBJECT,
+        'to_emmyrc_json': TO_EMMYRC_JSON,
+        'merge_values': MERGE_VALUES,
         'load_configs_raw::tail': {
             'src': {'kind': 'slice', 'name': 'load_tail', 'in': {'file': LOADER, 'kind': 'fn', 'name': 'load_configs_raw'},
                     'from': r'if config_jsons\.is_empty\(\) \{', 'to': r'\}(?=\s*\}\s*\Z)',
@@ -110,5 +235,12 @@ UNIT = {
     'trusted': [],
     'not_covered': [],
     'samples': [],
-    'mutants': [],
+    'mutants': [
+        {'name': 'no-slot-repair', 'item': 'to_emmyrc_json',
+         'pattern': r'if !slot\.is_object\(\) \{\s*\*slot = Value::Object\(Default::default\(\)\);\s*\}', 'repl': '',
+         'expect': r'C31\.flatten\.no-panic'},
+        {'name': 'leaf-overwrites-object', 'item': 'to_emmyrc_json',
+         'pattern': r'!map\.get\(key\)\.is_some_and\(\|old\| old\.is_object\(\)\)', 'repl': 'true',
+         'expect': r'C32\.flatten\.(order-independent|cursor)'},
+    ],
 }
